@@ -77,6 +77,12 @@ class Prover:
             return self.lin(v[4][0])
         if k == 'term':
             op, a = v[1], v[2]
+            if op in ('call:String::len', 'call:str::len') and len(a) == 1:
+                # byte length of a string: the same quantity as len() of the str it derefs to
+                x0 = a[0]
+                while isinstance(x0, tuple) and x0[0] == 'term' and x0[1] in ('call:String::deref', 'call:String::as_str', 'call:Cow::deref') and x0[2]:
+                    x0 = x0[2][0]
+                return self.lin(('term', 'len', [x0]))
             if op in ('Add', 'Sub') and len(a) == 2:
                 x, y = self.lin(a[0]), self.lin(a[1])
                 if x is not None and y is not None:
@@ -151,6 +157,12 @@ class Prover:
             if op == 'len':
                 mn = self.eng.min_len(a[0])
                 lo, hi = max(lo or 0, mn), min(hi if hi is not None else ISIZE_MAX, ISIZE_MAX)
+                x0 = a[0]
+                while isinstance(x0, tuple) and x0[0] == 'term' and x0[1] in ('call:Vec::deref', 'call:Vec::as_slice', 'call:Vec::deref_mut') and x0[2]:
+                    x0 = x0[2][0]
+                mm = re.search(r'#len=(\d+)$', x0[1]) if isinstance(x0, tuple) and x0[0] in ('term', 'sym') and isinstance(x0[1], str) else None
+                if mm:
+                    lo = hi = int(mm.group(1))
             elif op == 'BitAnd' and len(a) == 2:
                 cands = [x[1] for x in a if is_c(x)]
                 r0, r1 = sub(a[0]), sub(a[1])
@@ -211,6 +223,8 @@ class Prover:
                     lo, hi = r
         for (rx, hlo, hhi) in self.eng.range_hints:
             if rx.search(name):
+                if callable(hlo):
+                    hlo, hhi = hlo(name)
                 if hlo is not None:
                     lo = hlo if lo is None else max(lo, hlo)
                 if hhi is not None:
@@ -243,7 +257,28 @@ class Prover:
         if not (isinstance(term, tuple) and term[0] == 'term' and len(term[2]) == 2):
             return []
         op = term[1]
+        if op in ('call:str::starts_with', 'call:slice::starts_with', 'starts_with') and truth:
+            # s.starts_with(p) ⇒ len(s) ≥ len(p)
+            def strip(x0):
+                while isinstance(x0, tuple) and x0[0] == 'term' and x0[1] in ('call:String::deref', 'call:String::as_str', 'call:Cow::deref') and x0[2]:
+                    x0 = x0[2][0]
+                return x0
+            ls, lp = self.lin(('term', 'len', [strip(term[2][0])])), self.lin(('term', 'len', [strip(term[2][1])]))
+            return [ls.add(lp, -1)] if ls is not None and lp is not None else []
         if op not in ('Lt', 'Le', 'Gt', 'Ge', 'Eq', 'Ne'):
+            return []
+        x, y = term[2]
+        sx = isinstance(x, tuple) and x[0] == 'adt' and x[1] == 'core::option::Option' and x[3] == 'Some'
+        sy = isinstance(y, tuple) and y[0] == 'adt' and y[1] == 'core::option::Option' and y[3] == 'Some'
+        if sx != sy and op in ('Lt', 'Le', 'Gt', 'Ge'):
+            # Some(a) < opt (None < Some(_)): true only if opt = Some(b) with a < b, hence a ≤ max(type) − 1
+            inner = (x if sx else y)[4][0]
+            strict_less = (sx and ((op == 'Lt' and truth) or (op == 'Ge' and not truth))) or (sy and ((op == 'Gt' and truth) or (op == 'Le' and not truth)))
+            li = self.lin(inner)
+            if strict_less and li is not None:
+                h = self.hi(li)
+                if h is not None:
+                    return [Lin(h - 1).add(li, -1)]
             return []
         a, b = self.lin(term[2][0]), self.lin(term[2][1])
         if a is None or b is None:
@@ -405,6 +440,47 @@ class Prover:
                             return 'facts3'
         if self.fourier_motzkin(goal, fl):
             return 'fourier-motzkin'
+        # case split on Max / Min / saturating_sub atoms that occur in the facts (their upper bounds are disjunctive)
+        if depth < 2:
+            cand = []
+            for f in fl + [goal]:
+                for n in f.t:
+                    v = self.atoms.get(n)
+                    if v and v[0] == 'term' and len(v[2]) == 2 and v[1] in ('Max', 'max', 'Min', 'min', 'saturating_sub') and n not in cand:
+                        cand.append(n)
+            for n in cand[:3]:
+                v = self.atoms[n]
+                la, lb = self.lin(v[2][0]), self.lin(v[2][1])
+                if la is None or lb is None:
+                    continue
+                d_ab = Lin(la.c - lb.c, dict(la.t))
+                for k_, c_ in lb.t.items():
+                    d_ab.t[k_] = d_ab.t.get(k_, 0) - c_
+                d_ba = Lin(-d_ab.c, {k_: -c_ for k_, c_ in d_ab.t.items()})
+                if v[1] in ('Max', 'max'):
+                    alts = [(la, d_ab), (lb, d_ba)]
+                elif v[1] in ('Min', 'min'):
+                    alts = [(la, d_ba), (lb, d_ab)]
+                else:
+                    alts = [(d_ab, d_ab), (Lin(0), d_ba)]
+
+                def subst(l, rep):
+                    c = l.t.get(n)
+                    if not c:
+                        return l
+                    r = Lin(l.c + c * rep.c, {k_: x for k_, x in l.t.items() if k_ != n})
+                    for k_, x in rep.t.items():
+                        r.t[k_] = r.t.get(k_, 0) + c * x
+                    r.t = {k_: x for k_, x in r.t.items() if x != 0}
+                    return r
+                ok = True
+                for rep, side in alts:
+                    f2 = [subst(f, rep) for f in fl] + [side]
+                    if not (self.prove(subst(goal, rep), f2, depth + 1) or self.prove(Lin(-1), f2, depth + 1)):
+                        ok = False
+                        break
+                if ok:
+                    return 'fact-split'
         return None
 
     def fourier_motzkin(self, goal, facts, max_vars=9, max_cons=600):
@@ -512,7 +588,7 @@ class RangeEngine(Engine):
             if e[0] == 'fact':
                 fs.append(e[1])
         for inv in self.invariants:
-            fs += inv(self.P)
+            fs += inv(self.P, s) if inv.__code__.co_argcount >= 2 else inv(self.P)
         return fs
 
     def bb_of(self, fn, t):
@@ -776,9 +852,24 @@ class RangeEngine(Engine):
                 return self.site(fn, kind, 'index', None, s, t, 'operands')
             return self.site(fn, kind, 'index', [ln.add(idx, -1).add(Lin(1), -1)], s, t)
         if kind in ('DivisionByZero', 'RemainderByZero'):
-            d = P.lin(self._deref_val(ops[0], s))
+            # the assert's operand is the dividend (for the message); the divisor is inside the condition `Eq(divisor, 0)` (expected false)
+            c = self._deref_val(self.operand(t['cond'], fn, fid, s), s)
+            if is_c(c):
+                ok = bool(c[1]) == bool(t['expected'])
+                self.record(fn, kind, 'divisor', t, ok, 'constant divisor' if ok else 'constant zero divisor', s)
+                return ok
+            dv = None
+            if isinstance(c, tuple) and c[0] == 'term' and c[1] in ('Eq', 'Ne') and len(c[2]) == 2:
+                zs = [x for x in c[2] if is_c(x) and x[1] == 0]
+                nz = [x for x in c[2] if not (is_c(x) and x[1] == 0)]
+                if len(zs) == 1 and len(nz) == 1:
+                    dv = nz[0]
+            d = P.lin(dv) if dv is not None else None
             if d is None:
-                return self.site(fn, kind, 'divisor', None, s, t, 'operand')
+                return self.site(fn, kind, 'divisor', None, s, t, 'divisor not recognised in the condition')
+            l = P.lo(d)
+            if l is None or l < 0:
+                return self.site(fn, kind, 'divisor', None, s, t, 'signed divisor')
             return self.site(fn, kind, 'divisor', [d.add(Lin(1), -1)], s, t)
         if kind == 'OverflowNeg':
             return self.site(fn, kind, 'neg', None, s, t, 'negation')
